@@ -120,3 +120,82 @@ def converted(eng, st, d):
 R.spec("optuna/distributions.py", "_convert_old_distribution_to_new_distribution", trusted=True, types={"distribution": "BaseDistribution"},
        returns_kind="BaseDistribution", cases=[case("ok", returns="converted(distribution)")],
        note="deprecated-distribution shim: some distribution, a function of its argument")
+
+
+# --- C10 at the user-facing API: Trial.suggest_int ------------------------------------------------------------------------------
+from contracts import distributions as _dist  # noqa: E402
+R.merge(_dist.R)
+TT = "optuna/trial/_trial.py"
+R.spec(TT, "Trial._check_distribution", trusted=True, types={"distribution": "BaseDistribution"}, cases=[case("ok")], modifies=[],
+       note="only warns about inconsistent re-suggestion; no state change")
+
+
+@R.specfunc()
+def int_dispatch(eng, st, d):
+    """Dynamic dispatch made explicit for an IntDistribution object d (assumed: this IS what `d._contains(x)` and
+    `d.to_internal_repr(v)` evaluate to; both concrete methods are proved against these readings in contracts/distributions.py
+    and contracts/transform.py): contains(d, x) for integral x, and internal_repr(d, v) = float(v)."""
+    from pyvc import lib
+    x = z3.Const("id_x", flt_sort())
+    v = z3.Const("id_v", val_sort())
+    low, high, step = (eng.get_field(st, d, f).term for f in ("low", "high", "step"))
+    r = f_r(x)
+    xi = z3.ToInt(r)
+    pymod = (xi - low) - z3.If(step > 0, (xi - low) / step, (-(xi - low)) / (-step)) * step
+    cont = uf("dist_contains", z3.IntSort(), flt_sort(), z3.BoolSort())(d.term, x)
+    ir = uf("internal_repr", z3.IntSort(), val_sort(), flt_sort())(d.term, v)
+    return SV(KBool, z3.And(
+        qforall([x], z3.Implies(cont, z3.And(f_is_fin(x), z3.ToReal(xi) == r, low <= xi, xi <= high, pymod == 0)), patterns=[cont]),
+        qforall([v], ir == lib.val_to_float_term(v), patterns=[ir])))
+
+
+R.spec(TT, "Trial.suggest_int", props=["C10"], returns_kind="int",
+       requires=["is_vdict(self._fixed_params)", "params_dists_agree(self)", "step >= 1", "low <= high", "implies(log, low >= 1 and step == 1)",
+                 "name not in self._cached_frozen_trial._distributions", "not fixed_has(self._fixed_params, name)"],
+       cases=[case("any", any_outcome=True, ensures_return=[
+           # a freshly suggested integer parameter lies in [low, high] and on the step grid
+           "low <= result and result <= high and (result - low) % step == 0"])],
+       setup=None, locals={"distribution": "IntDistribution"},
+       assume_after={"distribution": "int_dispatch(distribution)"},
+       modifies=["F:BaseStorage.g_stp_*", "F:Trial._relative_params", "D:*@tp", "D:*@td", "D:*@rp", "F:FrozenTrial.*", "F:IntDistribution.*"])
+R.contracts[(TT, "Trial._suggest")].no_self_inline = True        # suggest_int goes through _suggest's CONTRACT
+
+
+@R.specfunc()
+def float_dispatch(eng, st, d):
+    """Dispatch made explicit for a FloatDistribution without step: contains(d, x) implies low <= x <= high (the concrete
+    method is proved against this reading in contracts/transform.py, variant `nostep`)."""
+    x = z3.Const("fd_x", flt_sort())
+    low, high = eng.get_field(st, d, "low").term, eng.get_field(st, d, "high").term
+    cont = uf("dist_contains", z3.IntSort(), flt_sort(), z3.BoolSort())(d.term, x)
+    from pyvc import lib
+    v = z3.Const("fd_v", val_sort())
+    ir = uf("internal_repr", z3.IntSort(), val_sort(), flt_sort())(d.term, v)
+    return SV(KBool, z3.And(qforall([x], z3.Implies(cont, z3.And(f_le(low, x), f_le(x, high))), patterns=[cont]),
+                            qforall([v], ir == lib.val_to_float_term(v), patterns=[ir])))
+
+
+R.spec("optuna/distributions.py", "FloatDistribution.__init__", trusted=True, variant="nostep",
+       types={"low": "float", "high": "float", "step": "float | None"},
+       requires=["step is None"],
+       cases=[case("invalid", when="nondet()", raises="ValueError"),
+              case("ok", ensures=["self.low is low and self.high is high and self.step is None and self.log == log"])],
+       modifies=["F:FloatDistribution.*"],
+       note="assumed here (constructor validation of FloatDistribution; the stepped path is covered by the bounded lattice)")
+
+R.spec(TT, "Trial.suggest_float", props=["C10"], types={"step": "float | None", "low": "float", "high": "float"}, returns_kind="Any",
+       requires=["is_vdict(self._fixed_params)", "params_dists_agree(self)", "step is None",
+                 "name not in self._cached_frozen_trial._distributions", "not fixed_has(self._fixed_params, name)"],
+       cases=[case("any", any_outcome=True, ensures_return=[
+           # a freshly suggested float parameter (no step) lies in [low, high]
+           "low <= float_of(result) and float_of(result) <= high"])],
+       locals={"distribution": "FloatDistribution"},
+       assume_after={"distribution": "float_dispatch(distribution)"},
+       call_variants={"FloatDistribution.__init__": "nostep"},
+       modifies=["F:BaseStorage.g_stp_*", "F:Trial._relative_params", "D:*@tp", "D:*@td", "D:*@rp", "F:FrozenTrial.*", "F:FloatDistribution.*"])
+
+
+@R.specfunc()
+def float_of(eng, st, v):
+    from pyvc import lib
+    return SV(KFloat, lib.val_to_float_term(eng.coerce(st, v, KVal).term))
